@@ -51,6 +51,7 @@ type Violation struct {
 	Forks  []int32
 	Trace  []int32
 	Detail string
+	Tables map[string][]string
 }
 
 // PendingPath is a queued decision prefix with (optionally) a model of its
@@ -101,6 +102,7 @@ type Path struct {
 	FuncsSeen    map[string]bool
 	Depth        int
 
+	Tables        map[string][]string
 	local         *localCtx
 	NSummaries    int
 	NSummaryPaths int
@@ -546,7 +548,7 @@ func (p *Path) ensureModelSoft() {
 
 func (p *Path) fail(label, detail string) {
 	p.Violation = &Violation{Label: label, Inputs: p.InputValues(), Forks: append([]int32(nil), p.Forks...),
-		Trace: append([]int32(nil), p.Trace...), Detail: detail}
+		Trace: append([]int32(nil), p.Trace...), Detail: detail, Tables: p.Tables}
 	panic(pathAbort{abortViolation, label})
 }
 
